@@ -510,9 +510,10 @@ class AbstractDateTime(AnyAtomicType):
 
                 td = datetime.timedelta(days=-days, seconds=delta.seconds,
                                         microseconds=delta.microseconds)
-                if not td:
-                    dt = datetime.datetime(4 if isleap(year + 1) else 6, 1, 1)
+                if not days:
+                    # January 1st of the following year, at any time of the day
                     year += 1
+                    dt = datetime.datetime(4 if isleap(year + 1) else 6, 1, 1) + td
                 else:
                     dt = datetime.datetime(5 if isleap(year + 1) else 7, 1, 1) + td
         else:
